@@ -473,7 +473,27 @@ func (r *run) resetScenario(V *Node, chainBlocks []*block.Block, cp *CrashPlan) 
 		case target:
 			r.out.Probes["reset_resumed"]++
 			r.compare(n, target, "after-reset-resume")
-			if r.fail == nil {
+			if r.fail == nil && j%2 == 0 {
+				// the resumed node goes on in the same process: the next blocks must be accepted with the reference roots
+				// (done for every second crash point; the other half keeps the database as resumed for the dump comparison)
+				for x := target + 1; x <= L; x++ {
+					var aerr error
+					if pv := sim.Recover(func() { aerr = n.AddBlockBytes(r.raw[x]) }); pv != nil {
+						pv.Msg = fmt.Sprintf("AddBlock(%d) on a node that resumed an interrupted reset (crash at batch %d/%d) panicked: %s", x, j, R, pv.Msg)
+						r.violate(pv)
+						break
+					}
+					sim.Wait()
+					if aerr != nil {
+						r.violate(sim.Violatef("reset-resume-continue", "", "node that resumed an interrupted reset (crash at batch %d/%d) rejects block %d: %v", j, R, x, aerr))
+						break
+					}
+				}
+				if r.fail == nil && L > target {
+					r.compare(n, L, "after-reset-resume-continue")
+				}
+				r.out.Probes["reset_resumed_then_continued"]++
+			} else if r.fail == nil {
 				n.Stop()
 				if err := img.Reopen(); err != nil {
 					sim.Harnessf("reopen image: %v", err)
